@@ -249,6 +249,26 @@ def run(ctx, model):
         ("escaped '(' then non-capturing group", "Other", "\\((?:pq)"),
         ("non-capturing group '(?:pq)'", "Group", "(?:pq)"), ("named group", "Group", "(?P<g>pq)"), ("flagged group", "Group", "(?i:pq)"),
     ]
+    # generated part: atom x quantifier x context (the hand-written part above names the property's special cases; this
+    # part makes sure no combination of an ordinary atom, a quantifier form and an enclosing construct falls between them)
+    atoms = [("p", "Token"), ("\\d", "Class"), ("\\.", "Token"), ("\\\\", "Token"), ("[pq]", "Class"), (".", "Class"),
+             ("(?:pq)", "Group"), ("(p)", "Group"), ("(?P<g>p)", "Group"), ("\\(", "Token"), ("\\)", "Token")]
+    quants = ["?", "*", "+", "{2,}", "{,3}", "{2,3}", "{3}", "+?", "{2,3}?", "{11,12}", "{12}", ""]
+    contexts = [("{}", None), ("r{}", "Other"), ("{}r", "Other"), ("({})", "Group"), ("(?:{})", "Group"), ("(?P<h>{})", "Group"),
+                ("\\\\{}", "Other"), ("\\({}", "Other"), ("({})r", "Other"), ("r({})", "Other"), ("\\d{}", "Other"), ("(?:r|{})", "Group")]
+    if ctx.tier == "quick":       # every atom, quantifier and context occurs, each pair of (quantifier, context) occurs
+        gen = [(a, q, c) for i, a in enumerate(atoms) for j, q in enumerate(quants) for k, c in enumerate(contexts) if (i + j + k) % 3 == 0]
+    else:
+        gen = [(a, q, c) for a in atoms for q in quants for c in contexts]
+    seen_txt = {c[2] for c in catalogue}
+    for (atext, atag), q, (tmpl, ctag) in gen:
+        text = tmpl.format(atext + q)
+        if text in seen_txt or fixed_width(text) is None or fixed_width(tmpl.format(atext)) is not True or \
+                (fixed_width(text) is False and fixed_width(atext + q) is True):
+            continue          # (unparsable, or variable for another reason than the quantifier: alternation lengths - see known findings)
+        seen_txt.add(text)
+        tag = ctag or ("Quantifier" if q else atag)
+        catalogue.append((f"generated {text!r}", tag, text))
     r = recvs[0]
     for meth in LOOKBEHIND:
         f = model.method(PRE, "Pregex", meth)
